@@ -62,7 +62,7 @@ def placed_amounts(op):
     out = []
     b = op.get('b') or {}
     if op['kind'] == 'alloc_put':
-        c = op['p'].rsplit('/', 1)[1]
+        c = M.canon_uuid(op['p'].rsplit('/', 1)[1])
         data = {c: b}
     elif op['kind'] == 'alloc_post':
         data = b
